@@ -66,11 +66,14 @@ def shard(shard_no, nshards, seed, tier, extra):
 
 
 def miri_requests(shard_no, nshards, seed):
-    reqs = [{"op": "ds", "target": "ds", "mode": "exhaustive", "universe": 3, "len": 3, "shard": shard_no, "shards": nshards},
-            {"op": "ds", "target": "ds", "mode": "random", "universe": 16, "len": 60, "count": 14, "seed": seed ^ (shard_no + 11)},
-            {"op": "ds", "target": "vmap", "mode": "random", "universe": 16, "len": 60, "count": 14, "seed": seed ^ (shard_no + 29)}]
+    # sized for ~4 minutes per shard under Miri (about 1000x slower than native)
+    reqs = [{"op": "ds", "target": "ds", "mode": "exhaustive", "universe": 2, "len": 3, "shard": shard_no, "shards": nshards},
+            {"op": "ds", "target": "ds", "mode": "random", "universe": 8, "len": 30, "count": 5, "seed": seed ^ (shard_no + 11)},
+            {"op": "ds", "target": "vmap", "mode": "random", "universe": 8, "len": 40, "count": 6, "seed": seed ^ (shard_no + 29)}]
     if shard_no == 0:
-        reqs.append({"op": "ds", "target": "vmap", "mode": "exhaustive", "universe": 3, "len": 4})
+        reqs.append({"op": "ds", "target": "vmap", "mode": "exhaustive", "universe": 3, "len": 3})
+    if shard_no == 1:
+        reqs.append({"op": "ds", "target": "ds", "mode": "exhaustive", "universe": 3, "len": 2})
     return reqs
 
 
